@@ -25,6 +25,7 @@ type C09Case struct {
 	Other  wire.Sched `json:"other_schedule"`
 	Coop   *wire.Coop `json:"interleaving,omitempty"`
 	Real   bool       `json:"real_goroutines,omitempty"`
+	Fresh  bool       `json:"fresh_vs_long_lived,omitempty"`
 	Copies int        `json:"copies,omitempty"`
 }
 
@@ -232,7 +233,50 @@ func (c *c09Runner) judgeReal(cs *C09Case, dir string, run int64) (*c09Obs, bool
 	return nil, false, nil
 }
 
+// judgeFresh: sub-check 6 — the evaluation alone in a brand-new worker
+// process against the same evaluation in another brand-new process that has
+// first evaluated the case's other tasks (its "predecessors") on their own
+// parsers. Both histories are part of the case, so the run is replayable.
+func (c *c09Runner) judgeFresh(cs *C09Case, run int64) (*c09Obs, bool, error) {
+	dir, cleanup, err := c.dir(cs.Files, "fresh", run)
+	if err != nil {
+		return nil, false, err
+	}
+	defer cleanup()
+	exec := func(tasks [][]wire.Op) ([]taskOutcome, error) {
+		fp := libsim.NewPool(c.e.Tree.Worker("inst"), 1, workerAS)
+		defer fp.Close()
+		c2 := *c
+		c2.pool = fp
+		out, _, err := c2.solo(&C09Case{Tasks: tasks}, cs.Other, dir, run)
+		return out, err
+	}
+	alone, err := exec(cs.Tasks[:1])
+	if err != nil {
+		return nil, false, err
+	}
+	// predecessors first, the evaluation under test last
+	order := append(append([][]wire.Op{}, cs.Tasks[1:]...), cs.Tasks[0])
+	after, err := exec(order)
+	if err != nil {
+		return nil, false, err
+	}
+	a, ra := evalSig(cs.Tasks[0], alone[0])
+	b, rb := evalSig(cs.Tasks[0], after[len(after)-1])
+	if ra || rb {
+		return nil, true, nil
+	}
+	if i, d := sigDiff(a, b); d {
+		return &c09Obs{Clause: "result-depends-on-earlier-evaluations-in-the-process", Op: i, Got: short(at(b, i), 700), Want: short(at(a, i), 700)}, false, nil
+	}
+	return nil, false, nil
+}
+
 func (c *c09Runner) judge(cs *C09Case, tag string, run int64) (*c09Obs, bool, *wire.Result, error) {
+	if cs.Fresh {
+		o, skip, err := c.judgeFresh(cs, run)
+		return o, skip, nil, err
+	}
 	dir, cleanup, err := c.dir(cs.Files, tag, run)
 	if err != nil {
 		return nil, false, nil, err
@@ -360,6 +404,7 @@ func RunC09(e *Env) (int, error) {
 	n := e.N(2500, 60000)
 	K := e.Pick(6, 24)
 	coopEvery := int64(4)
+	freshEvery := int64(e.Pick(8, 8))
 	realEvery := int64(e.Pick(60, 25))
 
 	fn := func(run int64) harness.RunResult {
@@ -404,6 +449,30 @@ func RunC09(e *Env) (int, error) {
 		}
 		if nontrivial {
 			ev.Sample(map[string]any{"ops": ops, "schedules": "Asc vs Desc/Rot/Hash/HashN"})
+		}
+		// sub-check 6: independence from the process's history — the same
+		// evaluation in a brand-new process (nothing evaluated before it)
+		// and in a pooled worker that has already evaluated hundreds of
+		// other cases (package-level caches, pools, counters)
+		if run%freshEvery == 1 {
+			cs := *base
+			cs.Other = wire.Sched{Mode: "Asc"}
+			cs.Fresh = true
+			for t := 0; t < 6; t++ {
+				o2, _ := genC09Eval(r.Fork(), nil)
+				cs.Tasks = append(cs.Tasks, o2)
+			}
+			o, skipped, err := c.judgeFresh(&cs, run)
+			if err != nil {
+				return harness.RunResult{Err: err}
+			}
+			if !skipped {
+				ev.Eval("")
+				ev.Count("fresh_process_vs_long_lived_worker", 1)
+				if o != nil {
+					return report(&cs, "history", o)
+				}
+			}
 		}
 		// sub-check 3: cooperative interleaving
 		if run%coopEvery == 0 {
@@ -533,7 +602,7 @@ func RunC09(e *Env) (int, error) {
 func c09Known(c *C09Case) string { return "" }
 
 func init() {
-	for _, chk := range []string{"schedule", "interleaving", "goroutines"} {
+	for _, chk := range []string{"schedule", "interleaving", "goroutines", "history"} {
 		replayers["C09/"+chk] = func(e *Env, raw []byte) (string, any, error) {
 			var v struct {
 				Clause string  `json:"clause"`
